@@ -25,7 +25,31 @@ theorem kron_entry (A B : Mat) (hB : InRange B) (r1 r2 c1 c2 : Nat) (hr : r2 < B
   kron_get A B hB r1 r2 c1 c2 hr hc
 
 example : InRange (pauliMat 2) ∧ (kron (pauliMat 1) (pauliMat 2)).get (1 * 2 + 0) (0 * 2 + 1) = -GQ.I := by
-  refine ⟨by intro e he; simp [pauliMat] at he; rcases he with rfl | rfl <;> simp [pauliMat], by decide +kernel⟩
+  refine ⟨by intro e he; simp [pauliMat, Generated.C06.pauliEntries] at he; rcases he with rfl | rfl <;> simp [pauliMat],
+    by decide +kernel⟩
+
+/-! ### the literal matrices of the source (re-extracted on every run) -/
+
+/-- `pauli_matrix_map[X|Y|Z]` as extracted from `sparse_tools.py` are the matrices of the Spec
+Pauli action: column `b` holds `i^k` in row `b'` where `P|b⟩ = i^k |b'⟩`. -/
+theorem pauli_matrices_sound (p b b' : Nat) (hp : 1 ≤ p ∧ p ≤ 3) (hb : b < 2) (hb' : b' < 2) :
+    (pauliMat p).get b' b = (if (actP 0 p b).2 = b' then GQ.ipow (actP 0 p b).1 else 0) := by
+  have h1 : p = 1 ∨ p = 2 ∨ p = 3 := by omega
+  have h2 : b = 0 ∨ b = 1 := by omega
+  have h3 : b' = 0 ∨ b' = 1 := by omega
+  rcases h1 with rfl | rfl | rfl <;> rcases h2 with rfl | rfl <;> rcases h3 with rfl | rfl <;> decide +kernel
+
+/-- `q_raise_csc` / `q_lower_csc` as extracted are the one-mode matrices of the Spec ladder
+operators `a†`, `a` (`|1⟩ ⟨0|` and `|0⟩ ⟨1|`). -/
+theorem ladder_matrices_sound (ty b b' : Nat) (ht : ty ≤ 1) (hb : b < 2) (hb' : b' < 2) :
+    (if ty = 1 then qRaise else qLower).get b' b =
+      (match actF 0 ty b with
+       | none => 0
+       | some (k, s') => if s' = b' then GQ.sgn k else 0) := by
+  have h1 : ty = 0 ∨ ty = 1 := by omega
+  have h2 : b = 0 ∨ b = 1 := by omega
+  have h3 : b' = 0 ∨ b' = 1 := by omega
+  rcases h1 with rfl | rfl <;> rcases h2 with rfl | rfl <;> rcases h3 with rfl | rfl <;> decide +kernel
 
 /-- `kron_chain_entry`: the entry of `reduce(kron, [M, M_1, …, M_k])` at the mixed-radix (Horner)
 indices of the digit lists is the product of the factor entries at the digits — for every chain
